@@ -46,6 +46,10 @@ CHECKS = {
    text="Coq theorems on the definitional semantics: env.NAME is the variable's value as a string; an unset name is an error in strict mode and NULL otherwise; two environments that both lack NAME give the same outcome (nothing of the other variables enters); env cannot be bound by let nor as a parameter; a tuple field named env is that field. C01 carries these to the compiled form. Tied to the real process: random environments (0..20 variables, arbitrary Unicode values, a planted secret) handed to `ucg` exactly, reads of set and unset names in strict and --no-strict mode, stderr searched for values of unrelated variables, artifacts compared",
    note="how the OS passes the environment is outside the model; diagnostics are text of the implementation, checked by search not by theorem",
    technique="Coq proof (evaluation of the env selector) + process-level correspondence"),
+ "C19": dict(category="exploration",
+   text="partial: every helper (lists.len/reverse/head/tail/enumerate/zip/slice/str_join, tuples.fields/values/iter/strip_nulls/has_fields, strings.len/chars/split_on/split_at/substr/parse_int, functional.maybe, schema.shaped/any/all/base_type_of) is called through import \"std/...\" in built files on seeded random lists, tuples, ASCII and Unicode strings, separators of length 1..3 and boundary index pairs, and the result read from `out yaml` is compared with a python reference definition; involution of reverse, zip truncation, inclusive slices and split_on/str_join round trip are among the cases. Coq theorems about the ASTs of std/*.ucg (regenerated by the real parser, gen/StdLib.v) under the definitional semantics are added for the fold-shaped helpers as they are proved; the level is raised to proof then",
+   note="the helpers that use import/mod.pkg (zip, slice, has_fields, the string helpers, schema.*) are outside the definitional semantics (imports answer Unsup) and stay test-only",
+   technique="Coq proof for fold-shaped helpers over generated ASTs (in progress) + reference-function correspondence through the ucg binary"),
  "C13": dict(category="proof",
    text="Coq state machine of the assertion collector and the `ucg test` driver: the verdict of each file equals its specification (builds and all assertions ok), independent of the other files and their order, exit status non-zero iff some file fails, each assertion logged exactly once; a lemma shows the shared collector of the original code refuted this. Tied to the real binary by running generated test files in every order and comparing verdicts, logs and exit status with the extracted model and with the generator's ground truth",
    note="per-file build abstracted to the list of asserted values; asserts in imported files and directory recursion order not modelled",
